@@ -319,6 +319,24 @@ _amend("C02", "note", "for the alias parser too only termination is proved (a fe
 _amend("C02", "technique", "rule lexer + parser are total on every line (no panic site reachable); alias parser terminates on every token list)",
        "rule lexer + parser and alias lexer + parser are total on every line (no panic site reachable))")
 
+# ---- session 4, part 2: all 36 parser variants, alias parser spans, C06 front-end theorem
+_amend("C17", "text", "35 of the 36 RuleSyntaxError variants of lexer + parser "
+       "are proved well placed on EVERY line", "ALL 36 RuleSyntaxError variants of lexer + parser are proved well placed on EVERY line")
+_amend("C17", "text", "The alias lexer's tokens and errors are proved to lie "
+       "inside the line as well (Props/C02ALex). PARTIAL: UnexpectedDiacritic (underlines the last ITEM of a term; item positions are not tracked by the invariant), the alias "
+       "parser's errors and all interpreter errors are not covered by a theorem; they are decided by the c17-spec search and the parse-ops / aliasp-ops comparison of spans:",
+       "UnexpectedDiacritic, the last variant, underlines the last ITEM of a term and then the stray diacritic token: every item the term functions return is proved to occupy a "
+       "proper interval of the line that ends where the token under the cursor begins or earlier (Lemmas/ParseItems, function by function; a syllable or structure without "
+       "parameters ends ONE BEFORE the next token). For ALIAS lines the same holds of every AliasSyntaxError of alias lexer + parser "
+       "(Props/C02ATotal.parseLine_error_spans, alias_error_formats: token errors, EmptyInput/EmptyReplacements, the two diacritic errors in order, UnbalancedIO from the first "
+       "item of a side to its last). PARTIAL: interpreter (run-time) errors are not covered by a theorem; they are decided by the c17-spec search:")
+_amend("C17", "technique", "Lean 4 theorems on formatter arithmetic + planted-fault search on impl",
+       "Lean 4 theorems: formatter arithmetic, every syntax error of rule and alias lexer + parser well placed on every line; planted-fault search on impl for run-time errors")
+CLAIMED["C06"]["text"] = CLAIMED["C06"]["text"] + (" FRONT END (Props/C06Parse, over the lexer/parser port): a string of white space only, and a string `ws* ;; anything` - line breaks "
+       "and rule text after the `;;` included, since a comment runs to the end of the string - parse to NO rule, for every such string (lexLine_blank / lexLine_comment / "
+       "parseLine_comment); the runner skips a None, so such lines leave every word untouched.")
+CLAIMED["C06"]["technique"] = CLAIMED["C06"]["technique"] + " + lexer/parser theorem: blank and comment-only strings are no rule"
+
 
 def main():
     checks = []
